@@ -46,14 +46,14 @@ FEATURES = {
     'deflit': "default-kind real literal that is not exactly representable (0.1) in a REAL(8) expression",
     'minmax3': "min/max with three arguments",
     'intfn-div': "integer min/max/abs/sign inside an operand of integer '/', in a subscript or SELECT CASE selector",
-    'intpow-div': "integer ** inside an operand of integer '/', in a subscript or SELECT CASE selector",
+    'intpow-div': "integer ** inside an operand of integer '/' or mod, in a subscript or SELECT CASE selector",
     'bound-assigned': "DO loop whose upper-bound variable is assigned inside the loop body",
     'intdiv': "integer division",
     'mod': "mod intrinsic",
     'sign': "sign intrinsic",
     'lbound': "array with lower bound /= 1",
     'loopvar-after': "DO variable read after its loop",
-    'step-unaligned': "DO loop with |step| > 1 whose range is not a multiple of the step",
+    'step-unaligned': "DO loop with |step| > 1 whose range is not a (non-negative) multiple of the step",
     'int-from-real': "integer scalar assigned a real-valued expression (implicit conversion)",
     'local-int-array': "local integer / logical array",
     'select': "SELECT CASE",
@@ -66,27 +66,42 @@ FEATURES = {
     'zero-trip': "DO loop that may execute zero times",
     'rank3': "3-D array",
     'mod-subscript': "mod(...) inside an array subscript",
+    'long-line': "statement longer than ~240 characters (PyCodegen wraps at 300 without continuation)",
+    'indirect': "array element used as subscript of another array (indirect addressing a(idx(i)))",
     'intmod-factor': "integer mod(...) as a non-leftmost factor of a product or as denominator",
     'section-loop-range': "section whose range equals the range of a step-less DO loop of the kernel "
                           "(resolve_vector_notation re-uses that loop's variable: listed under C30)",
 }
 
-C_PROFILE = {'target': 'c', 'off': ['dlit', 'deflit', 'minmax3', 'intfn-div', 'intpow-div', 'bound-assigned', 'mod-subscript', 'intmod-factor', 'section-loop-range'],
+C_PROFILE = {'target': 'c', 'off': ['dlit', 'deflit', 'minmax3', 'intfn-div', 'intpow-div', 'bound-assigned', 'mod-subscript', 'intmod-factor', 'section-loop-range', 'indirect'],
              'max_stmts': 6, 'max_depth': 3, 'expr_depth': 3}
 PY_PROFILE = {'target': 'py', 'off': ['dlit', 'deflit', 'intdiv', 'mod', 'sign', 'lbound', 'loopvar-after',
-                                      'step-unaligned', 'int-from-real', 'select', 'mod-subscript', 'intmod-factor'],
+                                      'step-unaligned', 'int-from-real', 'select', 'mod-subscript', 'intmod-factor', 'indirect', 'long-line'],
               'max_stmts': 6, 'max_depth': 3, 'expr_depth': 3}
 
 
 class G:
-    def __init__(self, draw, prof):
+    """
+    Generation context.  Every choice is a Hypothesis draw *rotated* by a per-case pseudo-random offset
+    (``random.Random`` seeded by the first draw and the shard seed): the all-zero / small choice sequences
+    Hypothesis starts every run with then decode to full-size, feature-rich kernels instead of the empty
+    one (on a loaded box a shard only gets to evaluate its first few examples), while the case stays a
+    pure function of the drawn values.
+    """
+
+    def __init__(self, draw, prof, salt0=0):
+        import random
         self.draw = draw
         self.p = prof
         self.off = set(prof.get('off') or ())
         self.skipped = {}
+        self.rng = random.Random((draw(st.integers(0, 2 ** 31 - 1)) * 1000003) ^ int(salt0))
 
     def i(self, lo, hi):
-        return self.draw(st.integers(lo, hi))
+        if hi <= lo:
+            return lo
+        span = hi - lo + 1
+        return lo + (self.draw(st.integers(0, span - 1)) + self.rng.randrange(span)) % span
 
     def pick(self, seq):
         seq = list(seq)
@@ -154,6 +169,10 @@ def subscripts(g, env, name, depth):
         if depth > 0 and 'mod' not in g.off and g.chance(30) and g.on('mod-subscript'):
             ch += ['mod'] * 2
         c = g.pick(ch)
+        if name != 'lidx' and lb <= 1 and ub == 'n' and g.chance(8) and g.on('indirect') and 'lidx' in env.vars:
+            # lidx(1:n) holds the permutation n+1-j: every element is a valid subscript of a dimension lb<=1:n
+            subs.append(['e', 'lidx', subscripts(g, env, 'lidx', 0)])
+            continue
         if c == 'lit':
             subs.append(lit(g.i(lb, ubmin)))
         elif c.startswith('loop:'):
@@ -164,7 +183,7 @@ def subscripts(g, env, name, depth):
             subs.append(['b', '+', var(c[7:]), ['i', 1]])
         else:
             # lb + mod(mod(e, ext) + ext, ext): in [lb, lb+ext-1] for every e
-            e = int_expr(g, env, depth - 1, strict=True)
+            e = int_expr(g, env, depth - 1, strict=2)
             inner = ['f', 'mod', [['b', '+', ['f', 'mod', [e, ['i', ext]]], ['i', ext]], ['i', ext]]]
             subs.append(inner if lb == 0 else ['b', '+', lit(lb), inner] if lb > 0 else ['b', '-', inner, ['i', -lb]])
     return subs
@@ -198,7 +217,7 @@ def int_leaf(g, env):
     return ['i', g.i(0, 9)]
 
 
-def int_divisor(g, env, depth, strict=True):
+def int_divisor(g, env, depth, strict=2):
     if depth <= 0 or g.chance(60):
         v = g.i(1, 7)
         return ['i', v] if g.chance(70) else ['p', ['u', '-', ['i', v]]]
@@ -219,14 +238,14 @@ def int_product(g, left, right):
     return ['b', '*', left, right]
 
 
-def int_expr(g, env, depth, strict=False):
-    """strict: the value is consumed by integer '/', mod or a subscript"""
+def int_expr(g, env, depth, strict=0):
+    """strict: 2 = the value is consumed by integer '/', a subscript or a SELECT CASE selector; 1 = by mod"""
     if depth <= 0 or g.chance(25):
         return int_leaf(g, env)
     c = g.pick(['+', '+', '-', '-', '*', '/', '/', 'neg', 'pow', 'mod', 'mod', 'abs', 'min', 'max', 'sign', 'paren'])
-    if c in ('abs', 'min', 'max', 'sign') and strict and not g.on('intfn-div'):
+    if c in ('abs', 'min', 'max', 'sign') and strict >= 2 and not g.on('intfn-div'):
         c = '+'
-    if c == 'pow' and strict and not g.on('intpow-div'):
+    if c == 'pow' and strict >= 1 and not g.on('intpow-div'):
         c = '*'
     if c == '/' and not g.on('intdiv'):
         c = '-'
@@ -243,9 +262,9 @@ def int_expr(g, env, depth, strict=False):
         return ['b', g.pick(['-', '*', '+']), int_expr(g, env, d, strict),
                 ['p', ['b', g.pick(['-', '+']), int_expr(g, env, d, strict), int_leaf(g, env)]]]
     if c == '/':
-        return ['b', '/', int_expr(g, env, d, True), int_divisor(g, env, d)]
+        return ['b', '/', int_expr(g, env, d, 2), int_divisor(g, env, d)]
     if c == 'mod':
-        return ['f', 'mod', [int_expr(g, env, d, strict), int_divisor(g, env, d, strict)]]
+        return ['f', 'mod', [int_expr(g, env, d, max(strict, 1)), int_divisor(g, env, d, max(strict, 1))]]
     if c == 'neg':
         return ['u', '-', int_expr(g, env, d, strict)]
     if c == 'pow':
@@ -415,6 +434,8 @@ def gen_assign(g, env):
     rhs = expr_of(g, env, t, d)
     if t == 'real' and g.chance(8):
         rhs = int_expr(g, env, d)        # real <- integer expression
+    if len(rexpr(rhs, 'real64')[0]) > 170 and not g.on('long-line'):
+        rhs = expr_of(g, env, t, 1)
     if k == 's':
         return ['assign', var(n), rhs]
     return ['assign', element(g, env, n, 1), rhs]
@@ -440,6 +461,8 @@ def gen_do(g, env, depth, nstmts):
     if g.chance(10) and g.on('zero-trip'):
         trip = 0
     neg = g.chance(25)
+    if trip == 0 and step > 1 and not g.on('step-unaligned'):
+        step = 1        # (a zero-trip range is never a multiple of a step > 1)
     if trip == 0:
         hi, vals = lo - 1, []
     else:
@@ -472,7 +495,10 @@ def gen_do(g, env, depth, nstmts):
 def gen_if(g, env, depth, nstmts):
     branches = []
     for _ in range(g.i(1, 3)):
-        branches.append([log_expr(g, env, 2), gen_body(g, env, depth + 1, max(1, nstmts // 2))])
+        cond = log_expr(g, env, 2)
+        if len(rexpr(cond, 'real64')[0]) > 170 and not g.on('long-line'):
+            cond = log_expr(g, env, 0)
+        branches.append([cond, gen_body(g, env, depth + 1, max(1, nstmts // 2))])
     els = gen_body(g, env, depth + 1, max(1, nstmts // 2)) if g.chance(50) else None
     return ['if', branches, els]
 
@@ -495,9 +521,9 @@ def gen_select(g, env, depth, nstmts):
     if not g.on('select'):
         return None
     if g.chance(70) and 'mod' not in g.off:
-        sel = ['f', 'mod', [int_expr(g, env, 2, strict=True), ['i', 5]]]     # in -4..4
+        sel = ['f', 'mod', [int_expr(g, env, 2, strict=2), ['i', 5]]]     # in -4..4
     else:
-        sel = int_expr(g, env, 1, strict=True)
+        sel = int_expr(g, env, 1, strict=2)
     used = set()
     cases = []
     for _ in range(g.i(1, 3)):
@@ -561,7 +587,8 @@ def gen_section(g, env):
             terms.append(expr_of(g, env2, t, 1))
     rhs = expr_of(g, env2, t, 1)
     for tm in terms:
-        rhs = ['b', g.pick(['+', '-', '*']), rhs, tm]
+        op = g.pick(['+', '-', '*'])
+        rhs = int_product(g, rhs, tm) if op == '*' and t == 'int' else ['b', op, rhs, tm]
     return ['assign', sec(a, k), rhs]
 
 
@@ -664,8 +691,8 @@ def decl(name, type_, dims=None, intent=None):
 
 
 @st.composite
-def cases(draw, prof):
-    g = G(draw, prof)
+def cases(draw, prof, salt0=0):
+    g = G(draw, prof, salt0)
     env = Env()
     args, decls, prologue = [], [], []
 
@@ -721,6 +748,11 @@ def cases(draw, prof):
         decls.append(decl(nm, t, dims))
         env.vars[nm] = {'type': t, 'dims': dims}
         prologue.append(fill_array(g, nm, dims, t, loopvars))
+    if 'indirect' not in g.off:
+        decls.append(decl('lidx', 'int', [[1, 'n']]))
+        env.vars['lidx'] = {'type': 'int', 'dims': [[1, 'n']], 'ro': True}
+        prologue.append(['do', 'j1', ['i', 1], var('n'), None,
+                         [['assign', ['e', 'lidx', [var('j1')]], ['b', '-', ['b', '+', var('n'), ['i', 1]], var('j1')]]]])
     for lv in loopvars:
         decls.append(decl(lv, 'int'))
     env.loopvars = list(loopvars)
@@ -1081,7 +1113,7 @@ def features_of(case):
                         span = (lo - hi) if neg else (hi - lo)
                         if span < 0:
                             feats.add('zero-trip')
-                        elif sv > 1 and span % sv:
+                        if sv > 1 and (span < 0 or span % sv):
                             feats.add('step-unaligned')
                 else:
                     lo, hi = const_of(s[2]), const_of(s[3])
@@ -1109,6 +1141,8 @@ def features_of(case):
     for s in walk_stmts(kern['body']):
         if s[0] == 'assign' and section_ranges(s, dims) & ranges:
             feats.add('section-loop-range')
+    if any(len(ln) > 240 for ln in render(case).split('\n')):
+        feats.add('long-line')
     for s in walk_stmts(kern['body']):
         if s[0] == 'assign':
             lt = type_of(s[1], vt)
@@ -1125,6 +1159,8 @@ def features_of(case):
                         feats.add('dlit')
                     if e[2] == '' and e[1] not in DYADIC:
                         feats.add('deflit')
+                if k == 'e' and any(a[0] in ('e', 'sec') for a in par):
+                    feats.add('indirect')
                 if k == 'e':
                     dd = dims.get(e[1]) or []
                     if len(dd) >= 2:
@@ -1156,6 +1192,8 @@ def features_of(case):
                 if isfn and type_of(e, vt) == 'int':
                     tag = 'intpow-div' if k == 'b' else 'intfn-div'
                     if s[0] == 'select' and top is s[1]:
+                        feats.add(tag)
+                    if k == 'b' and any(a[0] == 'f' and a[1] == 'mod' and type_of(a, vt) == 'int' for a in par):
                         feats.add(tag)
                     for a in par:
                         if (a[0] == 'b' and a[1] == '/' and type_of(a, vt) == 'int') or (a[0] in ('e', 'sec')):
